@@ -308,7 +308,12 @@ inline std::string exec(World& w, const Op& o, Kinds& ks) {
         else if (t == "o") res = root.template to<JsonObject>();
         else res = root.template to<JsonVariant>();
       } else {
-        if (t == "a") res = T.template to<JsonArray>();
+        // an array / object that is emptied in place: JsonArray::clear() / JsonObject::clear()
+        bool viaHandle = o.r == 0 && !ks.preferSet && ((t == "a" && T.template is<JsonArray>()) || (t == "o" && T.template is<JsonObject>())) &&
+                         ks.next(2) == 0;
+        if (viaHandle && t == "a") { T.template as<JsonArray>().clear(); ret = "skip"; }
+        else if (viaHandle) { T.template as<JsonObject>().clear(); ret = "skip"; }
+        else if (t == "a") res = T.template to<JsonArray>();
         else if (t == "o") res = T.template to<JsonObject>();
         else if (o.r == 0 && !ks.preferSet && ks.next(2) == 0) { T.clear(); ret = "skip"; }
         else res = T.template to<JsonVariant>();
@@ -318,13 +323,26 @@ inline std::string exec(World& w, const Op& o, Kinds& ks) {
     });
   } else if (o.op == "add") {
     withTarget(w, o.tb, o.ti, o.tp, ks, [&](auto&& T) {
-      bool r = withScalar(o.v, ks, [&](auto&& x) { return T.add(x); });
+      bool r;
+      if (T.template is<JsonArray>() && ks.next(2) == 0) {  // through the typed handle
+        JsonArray a = T.template as<JsonArray>();
+        ks.log += 'A';
+        r = withScalar(o.v, ks, [&](auto&& x) { return a.add(x); });
+      } else {
+        r = withScalar(o.v, ks, [&](auto&& x) { return T.add(x); });
+      }
       ret = r ? "true" : "false";
     });
   } else if (o.op == "addnew") {
     withTarget(w, o.tb, o.ti, o.tp, ks, [&](auto&& T) {
       JsonVariant res;
-      if (t == "a") res = T.template add<JsonArray>();
+      if (T.template is<JsonArray>() && ks.next(2) == 0) {  // through the typed handle
+        JsonArray a = T.template as<JsonArray>();
+        ks.log += 'A';
+        if (t == "a") res = a.add<JsonArray>();
+        else if (t == "o") res = a.add<JsonObject>();
+        else res = a.add<JsonVariant>();
+      } else if (t == "a") res = T.template add<JsonArray>();
       else if (t == "o") res = T.template add<JsonObject>();
       else res = T.template add<JsonVariant>();
       ret = res.isUnbound() ? "unbound" : "bound";
@@ -337,10 +355,34 @@ inline std::string exec(World& w, const Op& o, Kinds& ks) {
       w.ref(o.r) = res;
     });
   } else if (o.op == "rmidx") {
-    withTarget(w, o.tb, o.ti, o.tp, ks, [&](auto&& T) { T.remove(size_t(o.i)); });
+    withTarget(w, o.tb, o.ti, o.tp, ks, [&](auto&& T) {
+      unsigned how = T.template is<JsonArray>() ? ks.next(3) : 0;
+      if (how == 1) {  // typed handle, by index
+        T.template as<JsonArray>().remove(size_t(o.i));
+      } else if (how == 2 && size_t(o.i) < T.size()) {  // typed handle, by iterator
+        JsonArray a = T.template as<JsonArray>();
+        auto it = a.begin();
+        for (long j = 0; j < o.i; j++) ++it;
+        a.remove(it);
+      } else {
+        T.remove(size_t(o.i));
+      }
+    });
   } else if (o.op == "rmkey") {
     withTarget(w, o.tb, o.ti, o.tp, ks, [&](auto&& T) {
-      withString(o.k, ks, [&](auto&& key) { T.remove(key); return true; });
+      unsigned how = T.template is<JsonObject>() ? ks.next(3) : 0;
+      if (how == 1) {  // typed handle, by key
+        JsonObject obj = T.template as<JsonObject>();
+        withString(o.k, ks, [&](auto&& key) { obj.remove(key); return true; });
+      } else if (how == 2) {  // typed handle, by iterator
+        JsonObject obj = T.template as<JsonObject>();
+        for (auto it = obj.begin(); it != obj.end(); ++it) {
+          JsonString k = it->key();
+          if (k.size() == o.k.size() && memcmp(k.c_str(), o.k.data(), o.k.size()) == 0) { obj.remove(it); break; }
+        }
+      } else {
+        withString(o.k, ks, [&](auto&& key) { T.remove(key); return true; });
+      }
     });
   } else if (o.op == "copy") {
     JsonVariantConst src;
